@@ -202,13 +202,13 @@ def handleDoc (j : Json) : Json :=
 instance : Inhabited Scan.GoTy := ⟨.iface⟩
 
 partial def jsonGoTy (j : Json) : Scan.GoTy :=
-  let elem := jsonGoTy ((j.getObjVal? "elem").toOption.getD .null)
+  let elem := fun (_ : Unit) => jsonGoTy ((j.getObjVal? "elem").toOption.getD .null)
   match Diff.J.str j "k" with
   | "basic" => .basic (match Diff.J.str j "kind" with | "bool" => .bool | "int" => .int | "float" => .float | _ => .str)
-  | "ptr" => .ptr elem
-  | "slice" => .slice elem
-  | "arr" => .arr elem
-  | "map" => .map elem
+  | "ptr" => .ptr (elem ())
+  | "slice" => .slice (elem ())
+  | "arr" => .arr (elem ())
+  | "map" => .map (elem ())
   | "time" => .time
   | "bytes" => .bytes
   | "strct" => .strct ((Diff.J.arr j "fields").map (fun f =>
